@@ -21,7 +21,7 @@ def circuit(rng, n, k):
                 g = ("c", rng.choice(free), g)
         if rng.random() < 0.2:
             g = ("dgr", g)
-        e = g if e is None else (rng.choice(["mul", "mul", "mulassign", "append", "pushfront", "mulsingles", "mulrefmut"]), e, g)
+        e = g if e is None else (rng.choice(["mul", "mul", "mulassign", "append", "pushfront", "mulsingles", "mulrefmut", "pushback", "wrapped"]), e, g)
     return e
 
 
